@@ -29,6 +29,16 @@ def handleBonds (op : String) (j : Json) : Option (P Json) :=
           | none => Json.null
         pure (Json.mkObj [("pairs", Json.arr (r.map (fun p => nats [p.1, p.2])).toArray),
                           ("slack", slack), ("guards", guards)])
+  | "scan_min" => some do
+      -- the smallest squared distance among the 27 scanned images, and the two cell guards of Props/C17Min.lean
+      let p ← parseVec3 (← field j "p")
+      let q ← parseVec3 (← field j "q")
+      match ← parseCell (← field j "cell") with
+      | none => throw "scan_min needs a cell"
+      | some L =>
+        pure (Json.mkObj [("scanmin", ratToJson (scanMinDist2 L p q)),
+                          ("reduced", Json.bool (decide L.scanReduced)),
+                          ("inside", Json.bool (decide (L.inside p) && decide (L.inside q)))])
   | "max_bond_length" => some do
       let e1 ← (← field j "el1").getStr?
       let e2 ← (← field j "el2").getStr?
